@@ -18,7 +18,7 @@ func scenario(name string, opts txfile.Options, noIO bool, fn func(e *fenv.Env))
 	func() {
 		defer func() {
 			if p := recover(); p != nil {
-				e.Emit(core.Event{"ev": "Panic", "msg": fmt.Sprint(p)})
+				e.Emit(core.Event{"ev": "Panic", "msg": fmt.Sprint(p), "stack": core.ShortStack()})
 			}
 		}()
 		if err := e.Open(nil, 0); err != nil {
